@@ -162,3 +162,16 @@ Definition any_of (matches : string -> string -> bool) (o : option (list string)
 (* the matcher used by the correspondence harness: a filter is handed over as the table of the
    strings (of the history at hand) on which Python's re.search succeeded *)
 Definition table_matches (tbl : list string) (s : string) : bool := mem_str s tbl.
+
+(* What CPython's re answers on the witnesses of the known finding (DESIGN section 5, row 16):
+   (joined pattern, subject, Some (search succeeded) | None = re.error at compile time).  The same
+   table is recomputed from the interpreter on every run (Gen/SelectGen.v, tie_re_observed). *)
+Definition observed_re : list (string * string * option bool) :=
+  [("(x)\1", "yy", Some false); ("(y)\1", "yy", Some true); ("(x)\1|(y)\1", "yy", Some false);
+   ("x", "ABC", Some false); ("(?i)abc", "ABC", Some true); ("x|(?i)abc", "ABC", None)]%string.
+(* a rejected pattern selects nothing (the command fails) *)
+Definition observed_matches (p s : string) : bool :=
+  match find (fun e => String.eqb (fst (fst e)) p && String.eqb (snd (fst e)) s) observed_re with
+  | Some (_, _, Some b) => b
+  | _ => false
+  end.
